@@ -36,10 +36,10 @@ def run(tier, replay=None):
     exe = common.hbuild('h_file', ['h_file.cpp'], 'asan', need_reflect=True)
     env = common.san_env(dict(VERIF_TMP=d))
     out = subprocess.check_output([exe, 'c10count', str(common.seed()), '0', '0', lst, '1'], env=env, timeout=600).split()
-    space = int(out[1])
-    target = 400000 if tier == 'quick' else space
-    stride = max(1, space // target)
-    ncases = (space + stride - 1) // stride
+    space, targeted = int(out[1]), int(out[2])
+    target = 300000 if tier == 'quick' else space
+    stride = max(1, (space - targeted) // target)
+    ncases = int(subprocess.check_output([exe, 'c10count', str(common.seed()), '0', '0', lst, str(stride)], env=env, timeout=600).split()[0])
     sh = common.Sharded(exe, lambda a, b: ['c10', common.seed(), a, b, lst, stride], ncases, env=env, tag='c10', timeout=1500,
                         max_restarts=200).run()
     common.absorb(res, sh)
@@ -51,14 +51,80 @@ def run(tier, replay=None):
                 'mutation space enumerated at file level (every byte -> {00,01,7f,80,ff}; every aligned 16/32-bit field -> {0,1,7f..,80..,ff..,'
                 'old-1,old+1}; every truncation; container duplicate/delete/swap) and at inflated-stream level re-wrapped by the independent '
                 'writer with method 0 and 2 (bytes, fields, truncations, object duplicate/delete/swap, objectSize -> {0..16, old-1, old+1, '
-                '0x7fffffff, 0xffffffff}, inconsistent container size/method fields): %d mutants, every %d-th one run (phase from VERIF_SEED); '
+                '0x7fffffff, 0xffffffff}, headerSize x objectSize x headerVersion combinations, inconsistent container size/method fields): %d mutants; the '
+                'bulk byte/field/truncation sub-spaces are sampled with stride %d (phase from VERIF_SEED), the targeted ones (blocks, size fields, '
+                'header combinations, container fields) always run completely; '
                 'oracle: open returns or throws the library\'s exception, read loop ends within 64*filesize+4096 objects, close returns, no '
                 'ASan/UBSan/libstdc++-assertion report, no other exception, 256 MiB allocation cap surfaces as end of input; every mutant is '
                 'distinct by construction' % (nlib, space, stride))
     res.samples = st.get('samples', [])[:6]
-    res.extra = dict(seed_files=len(files), mutation_space=space, stride=stride, opened=st.get('opened', 0), open_threw=st.get('open_threw', 0),
+    res.extra = dict(seed_files=len(files), mutation_space=space, targeted_mutants_always_run=targeted, stride=stride, opened=st.get('opened', 0), open_threw=st.get('open_threw', 0),
                      objects_delivered=st.get('objects_delivered', 0), alloc_cap_hits=st.get('alloc_cap_hits', 0), kinds=st.get('kinds', {}))
     res.assumptions = ['ASan red zones miss intra-object and far out-of-bounds accesses; _GLIBCXX_ASSERTIONS and vector annotations narrow the gap']
+    if tier == 'thorough' or os.environ.get('VERIF_FUZZ'):
+        fuzz_leg(res, d, files, int(os.environ.get('VERIF_FUZZ_RUNS', '0')) or None)
     if st.get('sessions', 0) < ncases and not (sh.crashes or sh.hangs or sh.viols):
         res.inconclusive.append('only %d of %d mutants ran' % (st.get('sessions', 0), ncases))
     return res.finish()
+
+
+def fuzz_leg(res, d, files, runs=None):
+    """libFuzzer (clang, ASan+UBSan): codec-level target on object images and file-level target with a structure-aware mutator"""
+    import concurrent.futures as cf
+    import re
+    import struct
+    fz = {}
+    for name, total in (('fz_codec', runs or 48000000), ('fz_file', (runs or 4800000) // (1 if runs is None else 10) or 1000)):
+        exe = common.hbuild(name, [name + '.cpp'], 'fuzz')
+        seeds = os.path.join(d, name + '.seeds')
+        os.makedirs(seeds, exist_ok=True)
+        if name == 'fz_codec':
+            k = 0
+            for f in blf.reference_logs():
+                r = blf.load_reference(f)
+                for ty, img, osz in blf.object_images(r['stream']):
+                    if ty < 256:
+                        open(os.path.join(seeds, 'img%d' % k), 'wb').write(bytes([ty]) + img)
+                        k += 1
+        else:
+            for i, f in enumerate(files):
+                if os.path.getsize(f) < 8000:
+                    shutil.copy(f, os.path.join(seeds, 'seed%d' % i))
+        per = max(1000, total // common.NCPU)
+
+        def one(i, exe=exe, seeds=seeds, name=name, per=per):
+            out = os.path.join(d, '%s.out%d' % (name, i))
+            os.makedirs(out, exist_ok=True)
+            env = common.san_env(dict(VERIF_TMP=d))
+            env['ASAN_OPTIONS'] += ':quarantine_size_mb=8:alloc_dealloc_mismatch=0'   # the target replaces operator new (allocation cap); libFuzzer's own units mix both
+            r = subprocess.run([exe, out, seeds, '-runs=%d' % per, '-seed=%d' % (common.seed() * 100 + i + 1), '-timeout=20', '-rss_limit_mb=4096',
+                                '-malloc_limit_mb=2048', '-max_len=8192', '-artifact_prefix=%s/' % out, '-print_final_stats=1', '-verbosity=0'],
+                               stdout=subprocess.PIPE, stderr=subprocess.PIPE, env=env, timeout=6 * 3600)
+            return i, r.returncode, r.stderr.decode(errors='replace'), out
+        execs = 0
+        cov = 0
+        crashes = 0
+        with cf.ThreadPoolExecutor(common.NCPU) as ex:
+            for i, rc, err, out in ex.map(one, range(common.NCPU)):
+                m = re.search(r'stat::number_of_executed_units:\s*(\d+)', err)
+                execs += int(m.group(1)) if m else 0
+                for m in re.finditer(r'cov: (\d+)', err):
+                    cov = max(cov, int(m.group(1)))
+                if rc != 0:
+                    crashes += 1
+                    key = common.sanitizer_key(err)
+                    if 'VERIF-ORACLE' in err:
+                        key = 'fuzz-oracle:' + re.search(r'VERIF-ORACLE: ([a-z ]+)', err).group(1).strip().replace(' ', '-')
+                    elif 'ERROR: libFuzzer: timeout' in err:
+                        key = 'hang:libfuzzer-timeout'
+                    arts = [os.path.join(out, a) for a in os.listdir(out) if a.startswith(('crash-', 'timeout-', 'oom-'))]
+                    keep = None
+                    if arts:
+                        keep = os.path.join(res.replay_dir, name + '-' + os.path.basename(arts[0]))
+                        os.makedirs(res.replay_dir, exist_ok=True)
+                        shutil.copy(arts[0], keep)
+                    i0 = max(err.find('ERROR:'), err.find('runtime error'), err.find('VERIF-ORACLE'), 0)
+                    res.violation('%s:%s' % (name, key or 'exit-%d' % rc), err[i0:i0 + 2500], dict(artifact=keep))
+        fz[name] = dict(executions=execs, max_edge_coverage=cov, crashing_processes=crashes, runs_per_process=per)
+        res.evaluations += execs
+    res.extra['libfuzzer'] = fz
